@@ -64,7 +64,9 @@ Seeds == <<
 VARIABLES seed, env, ty, steps, rule, rules
 vars == <<seed, env, ty, steps, rule, rules>>
 
-Fresh(e) == CASE Len(e) = 0 -> "N0" [] Len(e) = 1 -> "N1" [] Len(e) = 2 -> "N2" [] Len(e) = 3 -> "N3" [] OTHER -> "N4"
+\* a name not yet declared (every rule adds at most one declaration; the seeds have at most three)
+FreshNames == <<"N0", "N1", "N2", "N3", "N4", "N5", "N6", "N7", "N8", "N9", "N10", "N11", "N12">>
+Fresh(e) == FreshNames[CHOOSE i \in DOMAIN FreshNames : (\A j \in DOMAIN e : e[j].n # FreshNames[i]) /\ (\A k \in 1..(i - 1) : \E j \in DOMAIN e : e[j].n = FreshNames[k])]
 IsDeclared(e, n) == \E i \in DOMAIN e : e[i].n = n
 IdDecl == [n |-> "Id", kind |-> "type", params |-> <<"X">>, ty |-> Param("X")]
 Res(t, add, r) == [ty |-> t, add |-> add, r |-> r]
